@@ -252,7 +252,10 @@ Proof. induction ps as [|p ps IH]; [reflexivity|]. cbn [history_spec map open_sp
 
 Lemma history_nth names d ps k p : nth_error ps k = Some p ->
   nth_error (history_spec names d ps) k = Some (snd (open_spec names d p)).
-Proof. intros H. rewrite history_independent. apply map_nth_error. exact H. Qed.
+Proof.
+  intros H. rewrite history_independent.
+  exact (map_nth_error (fun p => snd (open_spec names d p)) k ps H).
+Qed.
 
 (* a later request does not see an earlier one: the same request after any prefix *)
 Lemma history_prefix_irrelevant names d pre p :
